@@ -22,6 +22,8 @@ def build(spec):
                 setattr(o, f, objs[v[1]] if v[1] is not None else None)
             elif isinstance(v, tuple) and v and v[0] == "list":
                 setattr(o, f, [objs[n] for n in v[1]])
+            elif isinstance(v, tuple) and v and v[0] == "set":
+                setattr(o, f, {objs[n] for n in v[1]})
             elif isinstance(v, tuple) and v and v[0] == "money":
                 setattr(o, f, M.OMoney(v[1]))
             elif isinstance(v, tuple) and v and v[0] == "type":
@@ -106,12 +108,14 @@ def family_vec_carrier(tier, no_repeats=False):
 def family_alt_parent(tier, no_repeats=False):
     out = []
     lists = [(), ("i0",), ("i0", "i1")] + ([] if no_repeats else [("i1", "i1")])
-    for cls in ("OAltParent", "OAltChild"):
+    for cls in ("OAltParent", "OAltChild", "OAltGrand"):
         for its in lists:
             for fav in (None, "i0", "i1"):
                 fields = [("base", 1.5), ("items", ("list", its))]
-                if cls == "OAltChild":
+                if cls in ("OAltChild", "OAltGrand"):
                     fields += [("level", 2.5), ("favourite", ("ref", fav))]
+                    if cls == "OAltGrand":
+                        fields += [("extra", 9)]
                 elif fav is not None:
                     continue
                 out.append((item("i0", False, 0), item("i1", True, 3), ("p0", cls, tuple(fields))))
@@ -148,7 +152,7 @@ def family_alt_group(tier, no_repeats=False):
                 continue
             nodes = [item("i0", False, 0), item("i1", True, 3)]
             nodes.append(("a0", "OAltChild", (("base", 1.5), ("items", ("list", ("i0",))), ("level", 10.5), ("favourite", ("ref", "i0")))))
-            nodes.append(("a1", "OAltChild", (("base", 2.5), ("items", ("list", ("i1", "i0"))), ("level", 20.5), ("favourite", ("ref", None)))))
+            nodes.append(("a1", "OAltGrand", (("base", 2.5), ("items", ("list", ("i1", "i0"))), ("level", 20.5), ("favourite", ("ref", None)), ("extra", 5))))
             nodes.append(("a2", "OAltParent", (("base", 3.5), ("items", ("list", ())))))
             nodes.append(("g0", "OAltGroup", (("kids", ("list", kids)), ("first", ("ref", first)))))
             out.append(tuple(nodes))
@@ -162,21 +166,41 @@ def family_teams(tier, no_repeats=False):
     orders = lambda a, b: [(), (a,), (b,), (a, b), (b, a)]
     for tm0, tm1 in itertools.product(orders("m0", "m1"), repeat=2):
         for mt0, mt1 in itertools.product(orders("t0", "t1"), repeat=2):
-            out.append((("t0", "OTeam", (("name", "red"), ("members", ("list", tm0)))),
-                        ("t1", "OTeam", (("name", "blue"), ("members", ("list", tm1)))),
+            out.append((("t0", "OTeam", (("name", "red"), ("members", ("list", tm0)), ("rival", ("ref", None)))),
+                        ("t1", "OTeam", (("name", "blue"), ("members", ("list", tm1)), ("rival", ("ref", None)))),
                         ("m0", "OMember", (("name", "alice"), ("teams", ("list", mt0)))),
                         ("m1", "OMember", (("name", "bob"), ("teams", ("list", mt1))))))
+    # references between alternatively mapped objects: chains, a self loop, a 2-cycle made only of alternatively mapped objects
+    for r0, r1 in ((None, "t0"), ("t1", None), ("t0", None), ("t1", "t0"), ("t1", "t1")):
+        for tm0 in ((), ("m0",)):
+            for mt0 in ((), ("t0",), ("t1", "t0")):
+                out.append((("t0", "OTeam", (("name", "red"), ("members", ("list", tm0)), ("rival", ("ref", r0)))),
+                            ("t1", "OTeam", (("name", "blue"), ("members", ("list", ())), ("rival", ("ref", r1)))),
+                            ("m0", "OMember", (("name", "alice"), ("teams", ("list", mt0)))),
+                            ("m1", "OMember", (("name", "bob"), ("teams", ("list", ()))))))
+    return out
+
+
+def family_bags(tier, no_repeats=False):
+    """a Set-typed collection of mapped objects, shared with a holder's list"""
+    out = []
+    for things in ((), ("i0",), ("i0", "i1")):
+        for many in ((), ("i1",), ("i0", "i1")):
+            out.append((item("i0", False, 0), item("i1", True, 3),
+                        holder("h0", False, "i0" if things else None, many, None, ()),
+                        ("b0", "OBag", (("label", "bag"), ("things", ("set", things))))))
     return out
 
 
 def all_specs(tier, no_repeats=False):
     return (family_items_holders(tier, no_repeats) + family_vec_carrier(tier, no_repeats)
-            + family_alt_parent(tier, no_repeats) + family_drawing(tier, no_repeats) + family_teams(tier, no_repeats) + family_alt_group(tier, no_repeats))
+            + family_alt_parent(tier, no_repeats) + family_drawing(tier, no_repeats) + family_teams(tier, no_repeats) + family_alt_group(tier, no_repeats)
+            + family_bags(tier, no_repeats))
 
 
 def show(spec):
     out = []
     for name, cls, fields in spec:
-        rel = [f"{f}={v[1]}" for f, v in fields if isinstance(v, tuple) and v and v[0] in ("ref", "list")]
+        rel = [f"{f}={v[1]}" for f, v in fields if isinstance(v, tuple) and v and v[0] in ("ref", "list", "set")]
         out.append(f"{name}:{cls}({', '.join(rel)})")
     return "; ".join(out)
